@@ -108,6 +108,19 @@ def known_region(st, env, tn, syn, opts):
         return True
     return False
 
+_INT_ATOM = re.compile(r"\(int (\d{19,})\)")
+def holds_ge_2_63(sx):
+    """does the value hold an INTEGER >= 2^63?  (a native `unsigned long` can, e.g. INTEGER (0..MAX); the -fwide-types build
+    of the same type is an INTEGER_t whose descriptor has no field_unsigned, so that INTEGER_encode_uper (F172) and
+    INTEGER__dump (F173) go through asn_INTEGER2long / asn_INTEGER2imax)"""
+    return any(int(x) >= (1 << 63) for x in _INT_ATOM.findall(sx))
+
+def known_value_region(st, syn, opts, sx):
+    if WIDE in opts and holds_ge_2_63(sx):
+        if syn == "uper": st.skipped["F172"] += 1; return True
+        if syn in ("xer", "cxer"): st.skipped["F173"] += 1; return True
+    return False
+
 # ---------------------------------------------------------------------------------- module transforms
 def has_constraint(t):
     return bool(t.get("cons") or t.get("size") or t.get("alpha"))
@@ -368,7 +381,7 @@ def run_module(ctx, st, m, bvals, sets, nvals, try_nocompound=True):
                                                                 "output_a": r, "output_b": o, "failure": "descriptor differs in a field the options must not change: " + d[:300]})
                     continue
                 if kind != "enc" or (tn, sx) in unrep or not syn_ok(Bo, syn): continue
-                if known_region(st, env, tn, syn, Bo): continue
+                if known_region(st, env, tn, syn, Bo) or known_value_region(st, syn, Bo, sx): continue
                 if o and o.startswith("ok "): declines.setdefault((tn, syn, o[3:]), sx)
                 if k == 0: continue
                 st.stats["enc_compared"] += 1
@@ -473,18 +486,25 @@ def focus_module(rng):
             2 ** 63 - 1, -2 ** 63, rng.randrange(-2 ** 63, 2 ** 63), rng.randrange(-2 ** 40, 2 ** 40)]
     reals = [0, 0x8000000000000000, 0x7ff0000000000000, 0xfff0000000000000, 0x3ff0000000000000, 0xbff8000000000000, 0x3ff0200000000000,
              0x7fefffffffffffff, 0x0010000000000000, 0x3fb999999999999a, (rng.randrange(1, 2047) << 52) | rng.getrandbits(52)]
-    vals = {"FI": ints, "FNm": ints[:8], "FU": [v for v in ints if v >= 0], "FX": [0, 7, 8, -1, 1000, 2 ** 40],
+    # FU / FSeq.u / FCh.d.x are `unsigned long` natively: the whole range 0 .. 2^64-1 (finding F20 repaired)
+    uints = [v for v in ints if v >= 0] + [2 ** 63, 2 ** 63 + 1, 2 ** 64 - 2, 2 ** 64 - 1, rng.randrange(2 ** 63, 2 ** 64)]
+    vals = {"FI": ints, "FNm": ints[:8], "FU": uints, "FX": [0, 7, 8, -1, 1000, 2 ** 40],
             "FN": [v for v in ints if v <= 100], "FS": [-5, 0, 5], "FE": [0, 1, 2], "FEx": [3, 10, 200, 300], "FR": reals,
-            "FCh": [("a", ints[7]), ("a", -2 ** 63), ("b", reals[5]), ("c", 2), ("c", 0), ("d", {"x": 2 ** 40, "y": True}), ("d", {"x": 0}), ("e", b"\x01\x02")],
+            "FCh": [("a", ints[7]), ("a", -2 ** 63), ("b", reals[5]), ("c", 2), ("c", 0), ("d", {"x": 2 ** 40, "y": True}), ("d", {"x": 0}), ("e", b"\x01\x02"),
+                    ("d", {"x": 2 ** 63}), ("d", {"x": 2 ** 64 - 1, "y": False})],
             "FSoI": [[], ints[:6], ints[6:]], "FSoR": [[], reals[:4], reals[4:8]]}
     vals["FSeq"] = [{"i": -129, "c": ("a", 5)}, {"i": 2 ** 63 - 1, "u": 2 ** 63 - 1, "e": 1, "r": reals[9], "c": ("d", {"x": 7, "y": False}), "l": [("a", 1), ("b", reals[4]), ("c", 1), ("e", b"\xff")]},
-                    {"i": 0, "u": 0, "c": ("c", 2), "l": []}]
+                    {"i": 0, "u": 0, "c": ("c", 2), "l": []},
+                    {"i": -1, "u": 2 ** 63, "c": ("d", {"x": 2 ** 64 - 1})}, {"i": 1, "u": 2 ** 64 - 1, "c": ("a", 0), "l": [("d", {"x": 2 ** 63 + 5})]}]
     return m, vals
 
 # ---------------------------------------------------------------------------------- witnesses of the findings proposed for C13
 WITNESSES = {
-    "F20": {"module": "W DEFINITIONS AUTOMATIC TAGS ::= BEGIN U ::= INTEGER (0..MAX) END", "type": "U", "op": "enc der (int 9223372036854775808)",
-            "options_a": list(BASE), "options_b": list(BASE) + [WIDE], "expect_a": "ok 02088000000000000000", "expect_b": "ok 0209008000000000000000"},
+    "F172": {"module": "W DEFINITIONS AUTOMATIC TAGS ::= BEGIN U ::= INTEGER (0..MAX) END", "type": "U", "op": "enc uper (int 9223372036854775808)",
+             "options_a": list(BASE), "options_b": list(BASE) + [WIDE], "expect_a": "ok 09008000000000000000", "expect_b": "fail EBADF U buffer-not-null"},
+    "F173": {"module": "W DEFINITIONS AUTOMATIC TAGS ::= BEGIN U ::= INTEGER (0..MAX) END", "type": "U", "op": "enc cxer (int 9223372036854775808)",
+             "options_a": list(BASE), "options_b": list(BASE) + [WIDE], "expect_a": "ok " + b"<U>9223372036854775808</U>".hex(),
+             "expect_b": "ok " + b"<U>00:80:00:00:00:00:00:00:00</U>".hex()},
     "F74": {"module": "W DEFINITIONS AUTOMATIC TAGS ::= BEGIN S ::= SEQUENCE { a INTEGER (0..7) } END", "type": "S", "options_b": list(BASE) + [NOCONS],
             "expect_build_error": F74_SIG.pattern},
     "F75": {"module": 'W DEFINITIONS AUTOMATIC TAGS ::= BEGIN N ::= NumericString (FROM("0".."3"|" ")) END', "type": "N", "op": "enc uper (os 3320)",
@@ -555,12 +575,20 @@ def k_lines(ctx):
             a = add(f"ne_oer {v}"); pairs.append((a, add(f"we_oer {pads[1]}"), "enum-oer"))
         if u_ok:
             a = add(f"n_der u {v}")
-            if v < (1 << 63):
-                for p in pads[:2]: pairs.append((a, add(f"w_der {p}"), "der-unsigned"))
+            for p in pads: pairs.append((a, add(f"w_der {p}"), "der-unsigned"))      # whole unsigned long range (F20 repaired)
             a = add(f"n_xer u {v}"); pairs.append((a, add(f"w_xer u {mo}"), "xer-unsigned"))
     sub = ints[::3] + rnd[: (60 if ctx.quick else 3000)]
-    for v in sub:
+    for v in sub + [(1 << 63), (1 << 63) + 1, (1 << 64) - 1]:
         s_ok = -(1 << 63) <= v < (1 << 63); u_ok = 0 <= v < (1 << 63)
+        if (1 << 63) <= v < (1 << 64):
+            # an unsigned native cell beyond LONG_MAX against the wide value under a descriptor that also has field_unsigned
+            mo = minimal_octets(v).hex()
+            for w, p in OERS:
+                a = add(f"n_oer u {w} {p} {v}"); pairs.append((a, add(f"w_oer {w} {p} {mo}"), "oer-unsigned"))
+            for ct in CTS:
+                lb = int(ct.split(",")[3]) if ct != "-" else 0
+                if lb >= 0: a = add(f"n_uper u {ct} {v}"); pairs.append((a, add(f"w_uper u {ct} {mo}"), "uper-unsigned-both"))
+            continue
         if not s_ok: continue
         mo = minimal_octets(v).hex()
         for w, p in OERS:
@@ -572,10 +600,6 @@ def k_lines(ctx):
             if u_ok and lb >= 0:
                 a = add(f"n_uper u {ct} {v}"); pairs.append((a, add(f"w_uper s {ct} {mo}"), "uper-unsigned"))
                 add(f"w_uper u {ct} {mo}")
-    # values >= 2^63 of an unsigned native through OER/UPER (F2 inside), model correspondence only
-    for v in [(1 << 63), (1 << 63) + 1, (1 << 64) - 1]:
-        for w, p in OERS[:4]: add(f"n_oer u {w} {p} {v}")
-        for ct in CTS[:3] + CTS[9:11]: add(f"n_uper u {ct} {v}")
     # non-minimal / long wide values (no native counterpart), model correspondence only
     for k in (9, 12, 40, 127, 128, 300):
         b = bytes(ctx.rng.getrandbits(8) for _ in range(k)).hex()
@@ -620,15 +644,12 @@ def k_leg(ctx, st):
         v = int.from_bytes(octs, "big", signed=True) if octs else 0
         exp_s = f"ok {v}" if -(1 << 63) <= v < (1 << 63) else "fail"
         if couts[ia] != exp_s: bad.append(("ber-decode", lines[ia], couts[ia], "wide value " + str(v), exp_s))
-        if 0 <= v < (1 << 64) and couts[iu] != f"ok {v}": bad.append(("ber-decode-unsigned", lines[iu], couts[iu], "wide value " + str(v), f"ok {v}"))
-        # negative contents into an unsigned native: F3 (property C16), not judged here
+        exp_u = f"ok {v}" if 0 <= v < (1 << 64) else "fail"       # negative contents must be rejected, not wrapped (F3 repaired)
+        if couts[iu] != exp_u: bad.append(("ber-decode-unsigned", lines[iu], couts[iu], "wide value " + str(v), exp_u))
     ctx.cov["predicate"]["native_vs_wide_primitives"] = {"pairs": len(pairs) + 2 * len(dec_lines), "failures": len(bad)}
     for what, la, ca, lb, cb in bad[:4]:
         ctx.violation(f"C13: native and wide codec disagree ({what}): {la} -> {ca} but {lb} -> {cb}",
                       {"driver": "c13_driver", "op_a": la, "output_a": ca, "op_b": lb, "output_b": cb, "what": what})
-    # F20 at the primitive level
-    f20 = [i for i, l in enumerate(lines) if l == f"n_der u {1 << 63}"]
-    if f20 and couts[f20[0]] == "02088000000000000000": st.stats["F20_primitive_reproduces"] = 1
 
 # ---------------------------------------------------------------------------------- run
 def run(ctx):
